@@ -888,11 +888,28 @@ Lemma name_ok_accepted i o isv isu name :
   o_err o <> EInvalid -> o_err o <> EEmpty -> safe_name name = true ->
   contained i o (Some (allowed (i_root i) name)) None = true ->
   o_written o = [] -> (isu = true -> o_exec o = []) -> (isu = false -> o_removed o = []) ->
+  forallb (String.eqb (child_path (allowed (i_root i) name) (bin_name name))) (o_exec o) = true ->
   name_ok i o isv isu name = true.
 Proof.
-  intros N1 N2 S C Wr X Y. unfold name_ok. rewrite S, C, Wr. cbn.
+  intros N1 N2 S C Wr X Y Z. unfold name_ok. rewrite S, C, Wr, Z. cbn.
   destruct (o_err o); try congruence; destruct isu;
     try (now rewrite (X eq_refl)); now rewrite (Y eq_refl).
+Qed.
+
+Lemma ran_paths_in l p : In p (ran_paths l) -> exists ran, In (EExec p ran) l.
+Proof.
+  unfold ran_paths. intros H. apply in_flat_map in H as (e & He & Hp).
+  destruct e; cbn in Hp; try contradiction. destruct ran; [|contradiction].
+  destruct Hp as [<- | []]. now exists true.
+Qed.
+
+Lemma model_exec_exact i name :
+  is_abs (i_root i) = true -> name_op i name -> valid_name name = true ->
+  forallb (String.eqb (child_path (allowed (i_root i) name) (bin_name name))) (o_exec (model i)) = true.
+Proof.
+  intros A NO V. apply forallb_forall. intros p H. unfold model in H. cbn in H.
+  apply ran_paths_in in H as (ran & H). apply String.eqb_eq. symmetry.
+  eapply name_op_exec; eauto.
 Qed.
 
 Lemma model_no_effects i :
@@ -917,7 +934,7 @@ Proof.
       destruct H as [(O & _) | [(O & _) | (O & -> & ->)]]; try congruence.
       apply name_ok_blank; [exact E | exact Sp | now apply model_no_effects].
     + assert (E : r_err (exec_op i) <> EEmpty) by (intros E; rewrite E in EE; discriminate).
-      apply name_ok_accepted; auto; [now apply valid_name_safe | | |].
+      apply name_ok_accepted; auto; [now apply valid_name_safe | | | | now apply model_exec_exact].
       * (* nothing is written *)
         unfold model. cbn.
         destruct (existsb mutating (r_log (exec_op i))) eqn:M; [|reflexivity].
